@@ -16,29 +16,11 @@ use serde_json::{json, Value};
 
 pub struct C05 {
     pub ctx: WorldCtx,
-    compressed: Vec<Vec<String>>, // per exp*2+dir: names of compressed messages
 }
 
 impl C05 {
     pub fn new() -> C05 {
-        let ctx = WorldCtx::new();
-        let mut compressed = Vec::new();
-        for e in Exp::ALL {
-            for d in [Dir::Client, Dir::Server] {
-                let names = ctx
-                    .model(e)
-                    .messages_dir(d)
-                    .iter()
-                    .filter(|c| {
-                        crate::wowm::tag(&c.tags, "compressed") == Some("true")
-                            || format!("{:?}", c.members).contains("(\"compressed\", \"true\")")
-                    })
-                    .map(|c| c.name.clone())
-                    .collect();
-                compressed.push(names);
-            }
-        }
-        C05 { ctx, compressed }
+        C05 { ctx: WorldCtx::new() }
     }
 }
 
@@ -98,7 +80,14 @@ impl Check for C05 {
         }
         let (mut frames, mut names) = gen_frames(m, exp, dir, &mut wl, n, &knobs);
         // a compressed message somewhere in the sequence (they override the encrypted writers)
-        let comp = &self.compressed[Exp::ALL.iter().position(|x| *x == exp).unwrap() * 2 + if dir == Dir::Client { 0 } else { 1 }];
+        let comp = self.ctx.compressed_names(exp, dir);
+        if cf.chance(1, 10) {
+            if let Some((f, nm)) = self.ctx.big_compressed_frame(exp, dir, &mut wl) {
+                let pos = cf.below(frames.len() as u64 + 1) as usize;
+                frames.insert(pos, f);
+                names.insert(pos, nm);
+            }
+        }
         if !comp.is_empty() && cf.chance(1, 3) {
             let cname = cf.pick(comp).clone();
             if let Some(c) = m.message(&cname) {
